@@ -16,7 +16,8 @@ CASES = [
 ]
 NCASE = len(CASES)
 PATHS = ['string key', 'tuple key', 'scoped string key', 'parse_config flat', 'block member',
-         'finalize hook', 'scoped block member']
+         'finalize hook', 'scoped block member', 'finalize hook returning a valid binding first',
+         'two finalize hooks, the valid one first']
 PRE = [('', 'vw.dflt', 'a'), ('s', 'vw.dflt', 'b'), ('', 'vw.allow_a', 'a'),
        ('', 'vw.Kmeth.meth', 'b')]
 
@@ -31,11 +32,11 @@ def cfg_copy():
 def c11_step(case: int, path: int, p0: bool, p1: bool, p2: bool, p3: bool,
              v0: int, v1: int, v2: int, v3: int, nv: int) -> bool:
   """
-  pre: 0 <= case < 19 and 0 <= path < 7
+  pre: 0 <= case < 19 and 0 <= path < 9
   """
   world.fresh()
   case = rt.pick(case, NCASE)
-  path = rt.pick(path, 7)
+  path = rt.pick(path, 9)
   sel, param, ok_expected = CASES[case]
   pres = [rt.flag(p0), rt.flag(p1), rt.flag(p2), rt.flag(p3)]
   vals = [v0, v1, v2, v3]
@@ -63,7 +64,16 @@ def c11_step(case: int, path: int, p0: bool, p1: bool, p2: bool, p3: bool,
         text = 'vw.src.v = 1\n%s%s:\n  %s = %%vwc.NV\nvw.src2.v = 2\n' % (
             's/' if scope else '', sel, param)
       gin.parse_config(text)
+    elif path == 5:
+      gin.config.register_finalize_hook(lambda config: {sel + '.' + param: nv})
+      gin.finalize()
+    elif path == 7:
+      gin.config.register_finalize_hook(
+          lambda config: {'vw.src2.v': 2, ('s', sel, param): nv} if False else
+          {'vw.src2.v': 2, sel + '.' + param: nv})
+      gin.finalize()
     else:
+      gin.config.register_finalize_hook(lambda config: {'vw.src2.v': 2})
       gin.config.register_finalize_hook(lambda config: {sel + '.' + param: nv})
       gin.finalize()
   except Exception as e:
@@ -98,6 +108,8 @@ def c11_step(case: int, path: int, p0: bool, p1: bool, p2: bool, p3: bool,
   if path in (3, 4, 6):
     want[('', 'vw.src')] = {'v': 1}
     want[('', 'vw.src2')] = {'v': 2}
+  if path in (7, 8):
+    want[('', 'vw.src2')] = {'v': 2}
   want.setdefault((scope, full), {})
   if path in (3, 4, 6):
     # through text the value is the constant reference; compare by evaluation below
@@ -113,7 +125,7 @@ def c11_step(case: int, path: int, p0: bool, p1: bool, p2: bool, p3: bool,
   want[(scope, full)][param] = nv
   if after != want:
     return False
-  return gin.config_is_locked() == (path == 5)
+  return gin.config_is_locked() == (path in (5, 7, 8))
 
 
 HARNESSES = {
@@ -124,12 +136,12 @@ HARNESSES = {
         smoke=[dict(case=4, path=4, p0=True, p1=True, p2=False, p3=True, v0=1, v1=2, v2=3, v3=4, nv=9),
                dict(case=8, path=5, p0=True, p1=False, p2=True, p3=False, v0=1, v1=2, v2=3, v3=4, nv=9),
                dict(case=9, path=3, p0=False, p1=False, p2=False, p3=False, v0=1, v1=2, v2=3, v3=4, nv=9)],
-        tiers={'quick': dict(split=dict(case=list(range(19)), path=list(range(7))),
+        tiers={'quick': dict(split=dict(case=list(range(19)), path=list(range(9))),
                              fixed=dict(p2=False, p3=False), budget_s=100),
-               'thorough': dict(split=dict(case=list(range(19)), path=list(range(7))), budget_s=300)},
+               'thorough': dict(split=dict(case=list(range(19)), path=list(range(9))), budget_s=300)},
         bounds='inductive step: arbitrary subset of 4 existing bindings (2 in quick) with symbolic values, then '
                'one attempted binding: 19 (configurable, parameter) cases (valid, unknown parameter, **kwargs '
                'catch-all, allow-listed / not, deny-listed / not, unknown configurable, method through class, '
-               'bare method name, class, function behind a functools.wraps decorator with and without a denylist) x 7 API paths (string key, tuple key, scoped key, parse_config flat, '
-               'block member, scoped block member, finalize hook); values: all ints'),
+               'bare method name, class, function behind a functools.wraps decorator with and without a denylist) x 9 API paths (string key, tuple key, scoped key, parse_config flat, '
+               'block member, scoped block member, finalize hook alone / after a valid entry of the same hook / after a valid hook); values: all ints'),
 }
